@@ -27,13 +27,22 @@ BINARIES = {
     "c10": ("zzverif/cmd/c10", True),
     "prod": ("zzverif/cmd/prod", False),
     "pipe": ("vflow", True),
+    "pipe15": ("vflow", True),
 }
 
 
 # instrumented copies (tools/goinstr) that replace package files in the overlay: name -> [(package dir, [files], rename-main)]
 INSTRUMENT = {
     "c10": [("ipfix", ["memcache.go"], None), ("netflow/v9", ["memcache.go"], None)],
-    "pipe": [("vflow", ["ipfix.go", "sflow.go", "netflow_v5.go", "netflow_v9.go", "vflow.go", "ipfix_unix.go", "sflow_unix.go"], "vflowMain")],
+    # package main is rewritten completely; the decoder packages only get their sync / sync/atomic imports redirected
+    # (none today: a pooled scratch buffer introduced there becomes a deterministic, explorable pool)
+    "pipe": [("vflow", ["ipfix.go", "sflow.go", "netflow_v5.go", "netflow_v9.go", "vflow.go", "ipfix_unix.go", "sflow_unix.go"], "vflowMain"),
+             ("sflow", "*", None), ("packet", "*", None), ("reader", "*", None), ("netflow/v5", "*", None),
+             ("netflow/v9", "*-memcache.go", None), ("ipfix", "*-memcache.go-memcache_rpc.go-decoder.go-rfc5102_model.go", None)],
+    # the shutdown check also makes the template cache's lock operations scheduling points (dump vs. a worker's insert)
+    "pipe15": [("vflow", ["ipfix.go", "sflow.go", "netflow_v5.go", "netflow_v9.go", "vflow.go", "ipfix_unix.go", "sflow_unix.go"], "vflowMain"),
+               ("sflow", "*", None), ("packet", "*", None), ("reader", "*", None), ("netflow/v5", "*", None),
+               ("netflow/v9", "*", None), ("ipfix", "*-memcache_rpc.go-decoder.go-rfc5102_model.go", None)],
 }
 
 
@@ -48,6 +57,10 @@ def instrument(name):
             raise MachineryError("goinstr build failed:\n" + r.stdout)
     extra = {}
     for pkg, files, rename in INSTRUMENT.get(name, []):
+        if isinstance(files, str):  # "*" minus "-name" exclusions: every non-test Go file of the package in the tree
+            excl = set(files.split("-")[1:])
+            files = sorted(f for f in os.listdir(os.path.join(orch.REPO, pkg))
+                           if f.endswith(".go") and not f.endswith("_test.go") and not f.startswith("zz_") and f not in excl and f != "doc.go")
         outd = os.path.join(orch.BUILD, "instr_%d" % os.getpid(), name, pkg)
         os.makedirs(outd, exist_ok=True)
         cmd = [tool, "-out", outd]
@@ -122,8 +135,12 @@ def c08(tier):
     t0 = time.time()
     b = build("nf5")
     res = [run_space(b, "v5.rec", tier), run_space(b, "v5.pairs", tier)]
+    d, env = sched_env("c08")
+    res.append(run_space(build("pipe"), "pipe.c08", tier, env=env, hang_s=240))
+    import shutil
+    shutil.rmtree(d, ignore_errors=True)
     return finish("C08", tier, res,
-                  rule="v5.rec: version {5,0,9,10,0x0500} x count {1,2,29,30,0,31,65535} x datagram length {0..24, exact-48, exact-1, exact, exact+1, exact+48} x 61 content fills (position-unique, all-ones, all-zero, and per header/record field an all-ones one-hot and a low-bit pattern); v5.pairs: all ordered pairs of one-hot record fields in either record of a 2-flow packet. "
+                  rule="v5.rec: version {5,0,9,10,0x0500} x count {1,2,29,30,0,31,65535} x datagram length {0..24, exact-48, exact-1, exact, exact+1, exact+48} x 61 content fills (position-unique, all-ones, all-zero, and per header/record field an all-ones one-hot and a low-bit pattern); v5.pairs: all ordered pairs of one-hot record fields in either record of a 2-flow packet; pipe.c08: the real v5 receive loop and two workers on three datagrams with different addresses and flow counts under the controlled scheduler, every schedule within deviation bound 1 (thorough 3), each published document compared with its own datagram's expected one, race detector as per-schedule oracle (the decode and JSON rendering must not share state between workers). "
                        "Non-trivial = packet with a complete 24-octet header; distinct = distinct wire octets.",
                   assumptions=["field offsets/widths of the reference are transcribed from the Cisco NetFlow v5 export format", "JSON key names are those of the published format (the Go field names)"], t0=t0)
 
@@ -216,7 +233,7 @@ def c05(tier):
     bf, b5, bs = build("flow"), build("nf5"), build("sflowc")
     res = []
     for p in ("ipfix", "v9"):
-        for sp in ("json.pos", "json.pairs", "json.shape"):
+        for sp in ("json.pos", "json.pairs", "json.shape", "json.mixed") + (("json.triples",) if tier == "thorough" else ()):
             res.append(run_space(bf, p + "." + sp, tier))
     r5 = run_space(b5, "v5.rec", tier)
     r5.viol = [v for v in r5.viol if v["sig"].startswith("v5:json")]  # field mapping itself is C08's
@@ -225,7 +242,7 @@ def c05(tier):
         res.append(run_space(bs, sp, tier))
     return finish("C05", tier, res,
                   rule="IPFIX/v9: a value alphabet aimed at the encoder (strings with each of the 32 control characters, quote, backslash, slash, DEL, U+2028, 2/3/4-byte UTF-8, four kinds of invalid UTF-8, empty, HTML, 300 octets, JSON-looking; float32/64: +-0, +-Inf, quiet/signalling NaN, min/max denormal, max finite, 1e21, 1e-7, 0.1; booleans from octets 0,1,2,255; every integer width at 0/1/max/min; MAC, IPv4, IPv6 (::, ::1, v4-mapped, v4-compatible, all-ones); octet arrays of 0..3; reduced-size encodings; enterprise numbers 1, 29305, 2^32-1) "
-                       "placed first/middle/last/alone in a record, as scope or option field, from 4 exporter address forms; every ordered PAIR of values in one record; 1..3 sets x 1..3 records x 1..3 fields. v5: the C08 space, JSON oracle only. sFlow: the C07 sequence, one-hot and frame spaces (published JSON compared with the reference tree). "
+                       "placed first/middle/last/alone in a record, as scope or option field, from 4 exporter address forms; every ordered PAIR of values in one record; 1..3 sets x 1..3 records x 1..3 fields; data sets of two templates with different field counts interleaved in one message (AB, BA, ABA, BAB). v5: the C08 space, JSON oracle only. sFlow: the C07 sequence, one-hot and frame spaces (published JSON compared with the reference tree). "
                        "Oracle: json.Valid, valid UTF-8, single document, exact key sets, integers as exact decimals, floats bit-exact after ParseFloat (non-finite: any string naming the class), strings equal up to U+FFFD substitution, addresses canonical and parsing back to the same octets, 0x-hex octet arrays. Non-trivial = every case; distinct = wire octets x exporter.",
                   assumptions=FLOW_ASSUME + SF_ASSUME + ["a JSONMarshal error on a decodable message is reported here too (nothing valid can be published for it)"], t0=t0)
 
@@ -504,6 +521,7 @@ def c15(tier):
     b = build("pipe")
     d, env = sched_env("c15")
     res = [run_space(b, "pipe.c15", tier, env=env, hang_s=240)]
+    res.append(run_space(build("pipe15"), "pipe.c15locks", tier, env=env, hang_s=240))
     import shutil
     shutil.rmtree(d, ignore_errors=True)
     nruns = 20 if tier == "thorough" else 3
@@ -512,13 +530,15 @@ def c15(tier):
     r = res[0]
     return finish("C15", tier, res,
                   rule="per pipeline: the real run()/workers/shutdown() under main()'s orchestration (replicated: start, wait for the signal, shutdown, wait) in scenarios idle / data before the signal / data around the signal (queue capacity 1000 and 1) / template burst around the signal, two stop-start cycles each; every schedule within the deviation bound, where a deviation is also a timer firing while other threads are still runnable (a thread descheduled for a second). "
-                       "Oracle: no panic (send on / close of closed channel, nil dereference), no deadlock, main returns within 3 virtual seconds of the signal, no race report, the cache file left behind loads and holds the template processed before the signal, after the restart data for it is published at once. "
+                       "Second space (template cache lock operations are scheduling points too): a template datagram the receive loop has read (counted) right before the signal, deviation bound 2 — the dump against a worker that has taken the datagram off the queue but not stored the template yet. "
+                       "Oracle: no panic (send on / close of closed channel, nil dereference), no deadlock, main returns within 3 virtual seconds of the signal, no race report, the cache file left behind loads and holds the template processed before the signal and every template whose datagram had been received (counted) before the signal unless runnable threads were held up for a second or more in total (early timer firings), after the restart data for it is published at once. "
                        "Trace validation: %d runs of the shipped binary (real signals SIGTERM/SIGINT, loopback traffic incl. a flood during the signal, TCP sink behind the rawSocket producer, restart on the same cache files)." % nruns,
                   assumptions=PIPE_ASSUME + ["main()'s 20 lines of orchestration are replicated next to the real run()/shutdown() because GetOptions (flag registration, PID file, kill -0) cannot be re-run per execution",
                                              "virtual clock: time advances when every thread is blocked; in addition a timer may fire early at the cost of one deviation",
                                              "'acknowledged before the signal' = the template datagram was fully processed (quiescence) before the signal was sent",
                                              "a restart inside one execution re-creates the package-level state after the old threads have run out (sched.ProcessBoundary)"],
-                  extra_cov={"executions": r.extra.get("executions", 0), "binary_runs": nruns, "binary_runs_ok": okruns,
+                  extra_cov={"executions": sum(x.extra.get("executions", 0) for x in res), "executions_cache_locks_as_points": res[1].extra.get("executions", 0),
+                             "binary_runs": nruns, "binary_runs_ok": okruns,
                              "executions_by_deviations": {k: v for k, v in r.extra.items() if k.startswith("executions_with")}},
                   traces_validated=okruns, extra_viol=extra_viol, t0=t0)
 
@@ -596,7 +616,7 @@ def c17(tier):
     ok, n, fails = binary_config_runs()
     extra_viol = [{"t": "viol", "space": "binary", "idx": i, "sig": sig, "msg": msg, "case": {"kind": "real binary run"}} for i, (sig, msg) in enumerate(fails)]
     return finish("C17", tier, res,
-                  rule="the key <-> field <-> flag <-> yaml <-> env table is discovered from the code (struct tags; each flag set to a sentinel and the moved field observed): 45 int/string/bool settings. opts.single: every setting x every subset of {environment, file, command line} x distinct values per source (booleans: every assignment), incl. a config file lacking the key; opts.pairs: every pair of settings x every ordered pair of sources; opts.filter: the list-valued sflow-type-filter from file and command line. "
+                  rule="the key <-> field <-> flag <-> yaml <-> env table is discovered from the code (struct tags; each flag set to a sentinel and the moved field observed): 45 int/string/bool settings. opts.single: every setting x every subset of {environment, file, command line} x distinct values per source (booleans: every assignment; strings: 8 value shapes incl. '=', spaces, ':', '#', quotes, path-like), incl. a config file lacking the key; opts.pairs: every pair of settings x every ordered pair of sources; opts.filter: the list-valued sflow-type-filter from file and command line. "
                        "Oracle: command line > file > environment > default for the setting, every other setting untouched. Non-trivial = every case. Trace validation: %d configurations on the shipped binary (Workers in /flow, the IPFIX port actually bound, cache file path written at shutdown, stats port)." % n,
                   assumptions=["driven through NewOptions()+flagSet(), i.e. GetOptions without logging/PID handling; flag.CommandLine, os.Args and the VFLOW_* environment are reset per case",
                                "doc/flag-name differences (e.g. key ipfix-udp-size vs flag -ipfix-max-udp-size) are outside the statement; the table pairs each field with the flag that actually moves it"],
